@@ -5,7 +5,7 @@
 use serde_json::{json, Value};
 use std::sync::Arc;
 use std::time::Duration;
-use trusttunnel::verif::tunnel::{serve_tunnel, set_forwarder, VProto};
+use trusttunnel::verif::tunnel::{serve_tunnel, set_forwarder, VConnError, VConnect, VForwarder, VMux, VProto, VTcpMeta};
 use ttv::tunnel_env::*;
 use ttv::*;
 
@@ -29,6 +29,38 @@ fn mux_plan(o: &str) -> MuxPlan {
         "ok" => MuxPlan::Ok,
         "notconf" => MuxPlan::NotConfigured,
         _ => MuxPlan::Err,
+    }
+}
+
+/// The scripted forwarder with the outcome of its credentials probe (`check_auth`, the first step
+/// of a multiplexer request made with credentials) chosen by the vector: an error of the kind the
+/// specification names (Tunnel.tla ProbeOutcomes). Everything else is the scripted forwarder's.
+struct ProbeForwarder {
+    inner: Arc<ScriptedForwarder>,
+    probe: String,
+}
+
+impl VForwarder for ProbeForwarder {
+    fn tcp_connect(&self, meta: VTcpMeta) -> VConnect {
+        self.inner.tcp_connect(meta)
+    }
+    fn check_auth(&self, client: std::net::IpAddr, tls_domain: &str, auth: (String, String)) -> Result<(), VConnError> {
+        self.inner.check_auth(client, tls_domain, auth)?;
+        match self.probe.as_str() {
+            "ok" => Ok(()),
+            "Authentication" => Err(VConnError::Authentication("the upstream rejected the credentials".into())),
+            "Io" => Err(VConnError::Io(std::io::ErrorKind::ConnectionRefused.into())),
+            "Other" => Err(VConnError::Other("the upstream replied with a failure".into())),
+            "Timeout" => Err(VConnError::Timeout),
+            "HostUnreachable" => Err(VConnError::HostUnreachable),
+            o => panic!("unknown probe outcome {}", o),
+        }
+    }
+    fn udp_mux(&self, client: std::net::IpAddr) -> VMux {
+        self.inner.udp_mux(client)
+    }
+    fn icmp_mux(&self) -> VMux {
+        self.inner.icmp_mux()
     }
 }
 
@@ -287,15 +319,19 @@ fn main() {
                     }
                 }
                 let fwd = Arc::new(fwd_mut);
-                let desc = json!({"proto": proto, "cfg": v["cfg"], "reqs": reqs2.iter().map(|r| json!({"kind": r["kind"], "auth": r["auth"], "outcome": r["outcome"], "target": r["target"]})).collect::<Vec<_>>()});
+                // the outcome of the forwarder's credentials probe (one multiplexer request per vector where it is not "ok")
+                let probe = reqs2.iter().filter_map(|r| r["probe"].as_str()).find(|p| *p != "ok").unwrap_or("ok").to_string();
+                let pfwd: Arc<dyn VForwarder> = if probe == "ok" { fwd.clone() } else { Arc::new(ProbeForwarder { inner: fwd.clone(), probe: probe.clone() }) };
+                let desc = json!({"proto": proto, "cfg": v["cfg"], "reqs": reqs2.iter().map(|r| json!({"kind": r["kind"], "auth": r["auth"], "outcome": r["outcome"], "probe": r["probe"], "target": r["target"]})).collect::<Vec<_>>()});
                 logcap::set_scenario(&desc.to_string());
                 let d2 = desc.clone();
                 watchdog::enter(move || ("tunnel:hang".into(), "tunnel scenario did not finish".into(), d2));
-                let fwd2 = fwd.clone();
+                let pfwd2 = pfwd.clone();
+                drop(pfwd);
                 let res = catch(|| {
                     rt.block_on(async {
                         let core = make_core(&opts);
-                        set_forwarder(if real { None } else { Some(fwd2.clone()) });
+                        set_forwarder(if real { None } else { Some(pfwd2.clone()) });
                         let obs = if *proto == "h1" { vec![run_h1_full(&core, sni.clone(), &reqs2[0]).await] } else { run_h2(&core, sni.clone(), &reqs2).await };
                         set_forwarder(None);
                         // let spawned request tasks finish
@@ -305,7 +341,8 @@ fn main() {
                         let mut held = 0usize;
                         if !real {
                             for _ in 0..200 {
-                                held = Arc::strong_count(&fwd2).saturating_sub(2);
+                                // (the harness's own references: fwd and pfwd2 when they are one object, else pfwd2 alone)
+                                held = Arc::strong_count(&pfwd2).saturating_sub(if probe == "ok" { 2 } else { 1 });
                                 if held == 0 { break; }
                                 tokio::time::sleep(Duration::from_millis(100)).await;
                             }
@@ -354,7 +391,12 @@ fn main() {
                 for (i, r) in reqs2.iter().enumerate() {
                     let kind = r["kind"].as_str().unwrap();
                     let auth = r["auth"].as_str().unwrap();
-                    let outcome = r["outcome"].as_str().unwrap();
+                    // (a failing credentials probe is part of the outcome class: "ok+probe-Io")
+                    let outcome_s = match r["probe"].as_str() {
+                        Some(p) if p != "ok" => format!("{}+probe-{}", r["outcome"].as_str().unwrap(), p),
+                        _ => r["outcome"].as_str().unwrap().to_string(),
+                    };
+                    let outcome = outcome_s.as_str();
                     // egress attributable to this stream
                     let egress = match kind {
                         "udp" => calls.udp > 0,
